@@ -133,7 +133,14 @@ def make_case(gen, rng):
         b["rows"][rng.randrange(len(b["rows"]))][oi] = "n/a"
     if kind.startswith("spreadsheet"):
         b = dict(b, sidecar={}, kinds={})
-    return dict(kind=kind, bundle=b, defs=defs, faults=faults)
+    blank_rows = []
+    if kind == "spreadsheet-xlsx" and len(b["rows"]) >= 3 and rng.random() < 0.5:
+        # a completely empty worksheet row above other rows: it is a row of the file and counts in the row numbers
+        k = rng.randrange(0, len(b["rows"]) - 1)
+        b["rows"][k] = ["n/a"] * len(cols)
+        blank_rows = [k]
+        faults = [f for f in faults if f["row"] != k]
+    return dict(kind=kind, bundle=b, defs=defs, faults=faults, blank_rows=blank_rows)
 
 
 def build_input(case, rows=None):
@@ -157,6 +164,9 @@ def build_input(case, rows=None):
         ws.append(list(b["columns"]))
         for i, r in enumerate(rows):
             # an empty Excel cell is the usual way to write 'nothing here'
+            if case.get("blank_rows") and all(c in ("n/a", "") for c in r):
+                ws.append([None] * len(r))
+                continue
             ws.append([None if (c in ("n/a", "") and (i + j) % 2 == 0) else c for j, c in enumerate(r)])
         path = os.path.join(env.scratch(), f"c07-{os.getpid()}.xlsx")
         wb.save(path)
@@ -224,6 +234,20 @@ def check_case(case, rec):
         rec.violation(f"file validation raised {type(ex).__name__}", case, key=key)
         return
     rec.mon("no-exception")
+    # the same object validated again without the extra definitions, then with them once more: each run gives what a
+    # fresh object gives
+    if case["defs"] and case["kind"] in ("tabular", "tabular-tsv", "spreadsheet"):
+        try:
+            again_none = obj.validate(schema)
+            again_dd = obj.validate(schema, extra_def_dicts=dd)
+            fresh_none = build_input(case).validate(schema)
+        except Exception as ex:  # noqa
+            rec.violation(f"validating a table again raised {type(ex).__name__}", case)
+            return
+        rec.mon("revalidated-with-other-definitions")
+        keys = lambda lst: sorted(issue_key(i) for i in lst)      # noqa
+        if keys(again_none) != keys(fresh_none) or keys(again_dd) != keys(issues):
+            rec.violation("validating a table again with other extra definitions does not give what a fresh table gives", case)
     try:
         obj2 = build_input(case)
         dfa = obj2.dataframe_a
@@ -231,6 +255,9 @@ def check_case(case, rec):
         full_dd = obj2._mapper.get_def_dict(schema, dd)
     except Exception as ex:  # noqa
         rec.violation(f"assembly raised {type(ex).__name__}", case)
+        return
+    if len(dfa) != n or len(series) != n:
+        rec.violation("the table as read does not have one row per row of the file", dict(case, rows_read=len(dfa)))
         return
     # ---- locations
     rec.mon("location-well-formed", len(issues))
@@ -348,6 +375,8 @@ def check_case(case, rec):
             perm = list(range(n))
             rng.shuffle(perm)
             rows2 = [b["rows"][p] for p in perm]
+            if case.get("blank_rows") and all(c in ("n/a", "") for c in rows2[-1]):
+                continue                      # a trailing empty worksheet row does not exist in the file
             try:
                 i2 = build_input(case, rows2).validate(schema, extra_def_dicts=dd)
             except Exception as ex:  # noqa
